@@ -30,6 +30,9 @@ PROPS = {
             "what": "queued lazy actions run exactly once, in queue order, after merge and purge, and act only on their live target"},
     "C12": {"mon": ["C12"], "proj": ["events", "emit"], "kind": "store", "focus": ["tracked", "tracked", "tracked", "many"], "sexh": [6, 7, 8, 9, 10, 11],
             "what": "tracked storages emit exactly the insert/modify/remove events of each operation, in order"},
+    "C19": {"mon": ["C19", "C08"], "proj": ["dump", "ins", "entry_or", "del_now", "del_batch", "del_all", "maintain", "clear", "drop_world", "get", "mask", "createw"],
+            "ledger": True, "kind": "store", "focus": ["fault", "fault", "fault", "fault"], "sexh": [],
+            "what": "after a caught destructor panic no value is destroyed twice, no destroyed value is visible, and the world keeps conforming to the storage specification"},
     "C13": {"mon": ["C13"], "proj": ["rjoin"], "kind": "store", "focus": ["rjoin", "rjoin", "tracked", "many"], "sexh": [1, 7, 10],
             "what": "restricted storages visit exactly the members, read/write like direct lookups, apply the storage rule to other-entity lookups and flag only mutable fetches"},
 }
@@ -63,7 +66,7 @@ def plan(prop, tier, seed):
         foci = spec["focus"]
         if tier == "quick":
             for i, f in enumerate(foci):
-                runs.append((f"sgen-{f}-{i}", ["sgen", str(seed * 1000 + i), "350", "45", f]))
+                runs.append((f"sgen-{f}-{i}", ["sgen", str(seed * 1000 + i), "900" if f == "fault" else "350", "45", f]))
             for k in spec["sexh"][:4]:
                 runs.append((f"sexh{k}/3", ["sexh", str(k), "3"]))
         else:
@@ -294,7 +297,7 @@ def check(prop, tier, seed, t0):
         "transcript_lines": stats.get("lines", 0),
         "model_vs_impl_disagreements": {"in_projection": sum(len(d) for _, d in rel), "all_ops": all_diffs},
         "impl_vs_monitor_failures": sum(len(m) for m, _ in rel),
-        "branch_hits": {k: stats.get(k, 0) for k in ("reuses", "err_kills", "dead_access", "nested", "events", "destroyed")},
+        "branch_hits": {k: stats.get(k, 0) for k in ("reuses", "err_kills", "dead_access", "nested", "events", "destroyed", "faults", "leaked")},
         "ops_by_kind": {k[3:]: v for k, v in stats.items() if k.startswith("op_")},
         "runs": [r["label"] for r in results],
         "samples": samples,
